@@ -267,3 +267,14 @@ pub fn acc_boolean(_p: &ParsedParameters, key: &str) -> bool {
     }
     false
 }
+
+/// D-TINY: the integers 0..=3 as f64 (symbolic choice)
+pub fn tiny_f() -> f64 {
+    let i: u8 = nd();
+    kani::assume(i <= 3);
+    i as f64
+}
+
+pub fn tiny_c4() -> Coor4D {
+    Coor4D([tiny_f(), tiny_f(), tiny_f(), tiny_f()])
+}
